@@ -50,7 +50,9 @@ package builder
 // every recorded error is a *parserError (C11)
 //@ pred ErrsTyped(e errList) bool = forall k int :: {e[k]} 0 <= k && k < len(e) ==> is(e[k], "*parserError") && as(e[k], "*parserError") != nil
 // every slot of the variable stack (stale ones up to the capacity included) is nil or an allocated map
-//@ pred FramesOK(p *parser) bool = forall k int :: {p.vstack[k]} 0 <= k && k < cap(p.vstack) ==> (p.vstack[k] == nil || alloc(p.vstack[k]))
+//@ pred FramesOK(p *parser) bool = (forall k int :: {p.vstack[k]} 0 <= k && k < cap(p.vstack) ==> (p.vstack[k] == nil || alloc(p.vstack[k])))
+// ... and no map occupies two slots (a label bound in one scope never shows up in another)
+//@   | && (forall i int, j int :: {p.vstack[i], p.vstack[j]} 0 <= i && i < j && j < cap(p.vstack) ==> p.vstack[i] == nil || p.vstack[i] != p.vstack[j])
 // recovery maps are allocated, are never variable-stack slots, and hold grammar nodes
 //@ pred RecOK(p *parser) bool = (forall j int :: {p.recoveryStack[j]} 0 <= j && j < len(p.recoveryStack) ==> alloc(p.recoveryStack[j]))
 //@   | && (forall j int, k int :: {p.recoveryStack[j], p.vstack[k]} 0 <= j && j < len(p.recoveryStack) && 0 <= k && k < cap(p.vstack) ==> p.recoveryStack[j] != p.vstack[k])
@@ -851,7 +853,12 @@ package builder
 // Stacks: the three stacks are as they were (balanced push/pop; no frame replaced).
 // Budget: the expression counter only grows and stays within the budget (C16).
 //@ pred Budget(p *parser) bool = p.ExprCnt >= old(p.ExprCnt) && p.ExprCnt <= p.maxExprCnt
-//@ pred Stacks(p *parser) bool = SameMaps(p.vstack, old(p.vstack)) && SameRules(p.rstack, old(p.rstack)) && SameMaps(p.recoveryStack, old(p.recoveryStack)) && RecStable(p) && MemoGrows(p)
+//@ pred Stacks(p *parser) bool = SameMaps(p.vstack, old(p.vstack)) && SameRules(p.rstack, old(p.rstack)) && SameMaps(p.recoveryStack, old(p.recoveryStack)) && RecStable(p) && MemoGrows(p) && LowerFrames(p)
+// LowerFrames: the label scopes below the current one are untouched (C02: a label is only ever bound in the scope it belongs to).
+//@ pred LowerFrames(p *parser) bool = forall k int :: {old(p.vstack)[k]} 0 <= k && k < len(old(p.vstack)) - 1 ==>
+//@   | mapdom(old(p.vstack)[k]) == old(mapdom(p.vstack[k])) && mapval(old(p.vstack)[k]) == old(mapval(p.vstack[k]))
+// TopKept: the current label scope is untouched as well (expressions that open a scope of their own).
+//@ pred TopKept(p *parser) bool = len(old(p.vstack)) >= 1 ==> mapdom(old(p.vstack)[len(old(p.vstack)) - 1]) == old(mapdom(p.vstack[len(p.vstack) - 1])) && mapval(old(p.vstack)[len(old(p.vstack)) - 1]) == old(mapval(p.vstack[len(p.vstack) - 1]))
 // RecStable: the handler maps that were in force at entry still hold the same handlers.
 //@ pred RecStable(p *parser) bool = forall j int :: {old(p.recoveryStack)[j]} 0 <= j && j < len(old(p.recoveryStack)) ==>
 //@   | mapdom(old(p.recoveryStack)[j]) == old(mapdom(p.recoveryStack[j])) && mapval(old(p.recoveryStack)[j]) == old(mapval(p.recoveryStack[j]))
@@ -979,9 +986,11 @@ package builder
 //@   ensures [peg-choice C01] D(ch, p.data, old(p.pt.offset), ok, p.pt.offset, val)
 //@   ensures [shape C01] Shape(p, val, ok)
 //@   ensures [store C05] StoreC(p, ok)
+//@   ensures [scope C02] TopKept(p)
 //@   ensures [stacks C02 C14] Stacks(p)
 //@   ensures [invert C12] p.maxFailInvertExpected == old(p.maxFailInvertExpected)
 //@   ensures [budget C16] Budget(p)
+//@   loop#1 invariant [scope C02] TopKept(p)
 //@   loop#1 invariant [inv] Inv(p) && InRule(p) && p.pt == old(p.pt)
 //@   loop#1 invariant [store C05] StoreSame(p) && LoopStore(p)
 //@   loop#1 invariant [prefix C01] ChoicePre(ch, p.data, idx, old(p.pt.offset))
@@ -1000,6 +1009,7 @@ package builder
 //@   ensures [zero-width C01] p.pt == old(p.pt) && val == nil
 //@   ensures [state-always C05] StoreC(p, false)
 //@   ensures [store C05] StoreC(p, ok)
+//@   ensures [scope C02] TopKept(p)
 //@   ensures [stacks C02 C14] Stacks(p)
 //@   ensures [invert C12] p.maxFailInvertExpected == old(p.maxFailInvertExpected)
 //@   ensures [budget C16] Budget(p)
@@ -1016,6 +1026,7 @@ package builder
 //@   ensures [zero-width C01] p.pt == old(p.pt) && val == nil
 //@   ensures [state-always C05] StoreC(p, false)
 //@   ensures [store C05] StoreC(p, ok)
+//@   ensures [scope C02] TopKept(p)
 //@   ensures [stacks C02 C14] Stacks(p)
 //@   ensures [invert C12] p.maxFailInvertExpected == old(p.maxFailInvertExpected)
 //@   ensures [budget C16] Budget(p)
@@ -1032,6 +1043,7 @@ package builder
 //@   ensures [peg-opt C01] D(expr, p.data, old(p.pt.offset), ok, p.pt.offset, val)
 //@   ensures [always C01] ok && p.pt.offset >= old(p.pt.offset)
 //@   ensures [store C05] StoreC(p, ok)
+//@   ensures [scope C02] TopKept(p)
 //@   ensures [stacks C02 C14] Stacks(p)
 //@   ensures [invert C12] p.maxFailInvertExpected == old(p.maxFailInvertExpected)
 //@   ensures [budget C16] Budget(p)
@@ -1047,9 +1059,11 @@ package builder
 //@   ensures [peg-star C01] D(expr, p.data, old(p.pt.offset), ok, p.pt.offset, val)
 //@   ensures [always C01] ok && p.pt.offset >= old(p.pt.offset)
 //@   ensures [store C05] StoreC(p, ok)
+//@   ensures [scope C02] TopKept(p)
 //@   ensures [stacks C02 C14] Stacks(p)
 //@   ensures [invert C12] p.maxFailInvertExpected == old(p.maxFailInvertExpected)
 //@   ensures [budget C16] Budget(p)
+//@   loop#1 invariant [scope C02] TopKept(p)
 //@   loop#1 invariant [inv] Inv(p) && InRule(p)
 //@   loop#1 invariant [store C05] LoopStore(p)
 //@   loop#1 invariant [iter C01] exists k int :: k >= 0 && RepPre(expr.expr, p.data, k, old(p.pt.offset), p.pt.offset, arr(vals)) && len(vals) == k && off(vals) == 0
@@ -1068,9 +1082,11 @@ package builder
 //@   ensures [peg-plus C01] D(expr, p.data, old(p.pt.offset), ok, p.pt.offset, val)
 //@   ensures [shape C01] Shape(p, val, ok)
 //@   ensures [store C05] StoreC(p, ok)
+//@   ensures [scope C02] TopKept(p)
 //@   ensures [stacks C02 C14] Stacks(p)
 //@   ensures [invert C12] p.maxFailInvertExpected == old(p.maxFailInvertExpected)
 //@   ensures [budget C16] Budget(p)
+//@   loop#1 invariant [scope C02] TopKept(p)
 //@   loop#1 invariant [inv] Inv(p) && InRule(p)
 //@   loop#1 invariant [store C05] LoopStore(p)
 //@   loop#1 invariant [iter C01] exists k int :: k >= 0 && RepPre(expr.expr, p.data, k, old(p.pt.offset), p.pt.offset, arr(vals)) && len(vals) == k && off(vals) == 0
@@ -1091,6 +1107,7 @@ package builder
 //@   ensures [shape C01] Shape(p, val, ok)
 //@   ensures [store C05] StoreC(p, ok)
 //@   ensures [stacks C02 C14] Stacks(p)
+//@   ensures [bind-only C02] forall l string :: {has(p.vstack[len(p.vstack)-1], l)} l != lab.label ==> has(p.vstack[len(p.vstack)-1], l) == old(has(p.vstack[len(p.vstack)-1], l)) && p.vstack[len(p.vstack)-1][l] == old(p.vstack[len(p.vstack)-1][l])
 //@   ensures [bind C02] ok && lab.label != "" ==> has(p.vstack[len(p.vstack)-1], lab.label) && p.vstack[len(p.vstack)-1][lab.label] == val
 //@   ensures [invert C12] p.maxFailInvertExpected == old(p.maxFailInvertExpected)
 //@   ensures [budget C16] Budget(p)
@@ -1127,6 +1144,7 @@ package builder
 //@   ensures [decides C02 local] res == ok
 //@   ensures [state-always C05] StoreC(p, false)
 //@   ensures [store C05] StoreC(p, res)
+//@   ensures [scope C02] TopKept(p)
 //@   ensures [stacks C02 C14] Stacks(p)
 //@   ensures [invert C12] p.maxFailInvertExpected == old(p.maxFailInvertExpected)
 //@   ensures [budget C16] Budget(p)
@@ -1147,6 +1165,7 @@ package builder
 //@   ensures [decides C02 local] res == !ok
 //@   ensures [state-always C05] StoreC(p, false)
 //@   ensures [store C05] StoreC(p, res)
+//@   ensures [scope C02] TopKept(p)
 //@   ensures [stacks C02 C14] Stacks(p)
 //@   ensures [invert C12] p.maxFailInvertExpected == old(p.maxFailInvertExpected)
 //@   ensures [budget C16] Budget(p)
